@@ -3,7 +3,7 @@
    Instantiated for the little-endian host the implementation is executed on
    (helpers = the little-endian branch of Byteorder.h as generated). *)
 From Coq Require Import List NArith Bool String.
-From O1722 Require Import Bits CExpr Host FieldModel AccModel LegacyModel Spec.
+From O1722 Require Import Bits CExpr Host FieldModel AccModel LegacyModel Spec CanModel.
 From O1722.Generated Require Import Byteorder Tables.
 Import ListNotations.
 Local Open Scope N_scope.
@@ -112,3 +112,20 @@ Definition m_legacy (name:string) (pdu:option buf) (params:list N) (r:option N) 
       end
   | None => LNoSuch
   end.
+
+(* ---- ACF-CAN builders ---- *)
+Inductive cout := CB (b:buf) (ret:N) | CV (v:N) | COob | CUnmod.
+Definition of_can (o:outcome (buf * N)) : cout :=
+  match o with Ok (b, r) => CB b r | OOB _ => COob | Unmodelled => CUnmod end.
+Definition canf (brief:bool) : canfmt := if brief then cf_brief else cf_full.
+Definition m_can_create (brief:bool) (b:buf) (id:N) (payload:list N) (plen variant:N) : cout :=
+  of_can (can_create m_ldq m_stq (canf brief) b id payload plen variant).
+Definition m_can_finalize (brief:bool) (b:buf) (plen:N) : cout :=
+  of_can (can_finalize m_ldq m_stq (canf brief) b plen).
+Definition m_can_set_payload (b:buf) (payload:list N) (plen:N) : cout :=
+  match can_set_payload cf_full b payload plen with Ok b' => CB b' 0 | OOB _ => COob | Unmodelled => CUnmod end.
+Definition m_can_payload_length (b:buf) : cout :=
+  match can_payload_length m_ldq m_stq cf_full b with Ok v => CV v | OOB _ => COob | Unmodelled => CUnmod end.
+Definition s_can_create (brief:bool) (b:buf) (id:N) (payload:list N) (variant:N) : cout :=
+  let r := can_ref (canf brief) b id payload variant in
+  if snd r <=? blen b then CB (fst r) (snd r) else CUnmod.
